@@ -158,6 +158,8 @@ EvWriteTo(e) ==
       good == e.wkind = "all"
   IN /\ NoteIf(~WriteOutcomeOK(t, bytes, e.writes, e.n, e.err, e.strN), "C10",
                "WriteTo does not hand over one frame with a truthful count", [n |-> e.n, err |-> e.err, strN |-> e.strN])
+     /\ NoteIf(good /\ t # 0 /\ Has(e, "strN0") /\ e.strN0 >= 0 /\ e.err = "nil" /\ e.strN0 # e.n, "C10",
+               "String() printed another size before the packet was written", [strN0 |-> e.strN0, n |-> e.n])
      /\ (Has(e, "obs") => NoteIf(ObsDiff(o, e.obs) # {}, "C11", "WriteTo changed what the accessors return", [keys |-> ObsDiff(o, e.obs)]))
      /\ IF good /\ Len(bytes) >= 2
         THEN LET rl == VBIRead(Tail(bytes)) IN
@@ -218,6 +220,19 @@ EvCallSpread(e) ==        \* p.M(xs...) with xs the caller's slice or the list a
       d == IF Has(e, "obs") THEN ObsDiff(o2, e.obs) ELSE {}
   IN /\ NoteIf(d # {}, "C12", "accessors after the call differ from the record-of-fields model", [m |-> e.m, keys |-> d])
      /\ pool' = [pool EXCEPT ![h].o = o2]
+     /\ Bystanders(e, h)
+     /\ KeepStream /\ KeepAuxTouch(h) /\ UNCHANGED prog
+
+(* p.Key()[n].M(args): a setter called on an element of the list an accessor returned (Filters()[0].SetFilter(..)) *)
+EvCallElem(e) ==
+  LET h == e.h  t == pool[h].t  o == pool[h].o
+      el == o[e.key][e.n + 1]
+      el2 == IF e.m = "SetFilter" THEN <<e.args[1], el[2]>> ELSE IF e.m = "SetOptions" THEN <<el[1], e.args[1]>> ELSE el
+      o2 == [o EXCEPT ![e.key] = [@ EXCEPT ![e.n + 1] = el2]]
+      d == IF Has(e, "obs") THEN ObsDiff(o2, e.obs) ELSE {}
+  IN /\ NoteIf(d # {}, "C12", "accessors after a setter on a list element differ from the record-of-fields model", [m |-> e.m, keys |-> d])
+     /\ pool' = [pool EXCEPT ![h].o = o2]
+     /\ (Has(e, "obs") => WFCheck(t, o2, e.obs))
      /\ Bystanders(e, h)
      /\ KeepStream /\ KeepAuxTouch(h) /\ UNCHANGED prog
 
@@ -364,7 +379,7 @@ EvVBIDec(e) ==
 EvConc(e) ==
   /\ \A j \in 1..Len(e.results) :
         LET r == e.results[j] IN
-        /\ NoteIf(~r.ok, "C13", "a concurrent read-only operation failed", [op |-> r.op, h |-> r.h])
+        /\ NoteIf(~r.ok /\ r.op # "ReadFrame", "C13", "a concurrent read-only operation failed", [op |-> r.op, h |-> r.h])
         /\ IF r.op \in {"WriteTo", "ReadPacket"} /\ r.h \in DOMAIN enc
            THEN NoteIf(~r.same \/ r.bytes # enc[r.h].bytes, "C13", "concurrent WriteTo differs from the sequential encoding", [op |-> r.op, h |-> r.h])
            ELSE TRUE
@@ -375,6 +390,7 @@ EvConc(e) ==
              /\ NoteIf(~r.same, "C13", "concurrent ReadPacket calls on private streams did not all give the same packet", [frame |-> r.frame])
              /\ NoteIf(vd.kind = "accept" /\ (~r.ok \/ RealType(r.obs) # vd.pkt.t \/ ObsDiff(ObsOfWire(vd.pkt), r.obs) # {}), "C13",
                        "a concurrent ReadPacket returned another packet than the sequential reading of its frame", [frame |-> r.frame])
+             /\ NoteIf(vd.kind = "reject" /\ r.ok, "C13", "a concurrent ReadPacket accepted a frame that must be rejected", [frame |-> r.frame])
         ELSE TRUE
   /\ \A i, j \in 1..Len(e.results) :
         LET a == e.results[i]  b == e.results[j] IN
@@ -404,6 +420,7 @@ Step(e) ==
   ELSE IF e.ev = "Slice" THEN EvSlice(e)
   ELSE IF e.ev = "SliceSet" THEN EvSliceSet(e)
   ELSE IF e.ev = "CallSpread" THEN EvCallSpread(e)
+  ELSE IF e.ev = "CallElem" THEN EvCallElem(e)
   ELSE IF e.ev = "Diag" THEN EvDiag(e)
   ELSE IF e.ev = "CmpDiag" THEN EvCmpDiag(e)
   ELSE IF e.ev = "Filter" THEN EvFilter(e)
@@ -463,6 +480,7 @@ ReadReturn(e) ==                                     \* k = Len(calls) + 1
   /\ Count(IF Len(e.calls) > 3 THEN "read-fragmented" ELSE "read-contiguous")
   /\ (faulty => Count("read-faulty")) /\ (rtrip => Count("roundtrip")) /\ (judge /\ g \in DOMAIN memo => Count("memo-compared"))
   /\ NoteIf(e.ok = e.nilpkt, "C04", "ReadPacket returned neither exactly a packet nor exactly an error", [ok |-> e.ok, nilpkt |-> e.nilpkt])
+  /\ NoteIf(~e.ok /\ ~e.nilpkt /\ faulty, "C08", "an error came together with a non-nil packet value", [typednil |-> e.typednil])
   /\ NoteIf(~MayReturn(res, e.isE, e.isEOF),
             IF faulty THEN "C08"
             ELSE IF \A j \in 1..Len(e.calls) : e.calls[j].n = e.calls[j].req
@@ -527,7 +545,44 @@ ReadReturn(e) ==                                     \* k = Len(calls) + 1
   /\ k' = 0 /\ ph' = "req" /\ l' = l + 1
   /\ UNCHANGED <<prog, from, contig, diag>>
 
+(* ReadPacket was given a *bufio.Reader (or another standard reader) on top of the transport: the library's own      *)
+(* Read calls are not visible, so the call is judged as a whole, exactly as C06 / C08 state it: everything the          *)
+(* transport will deliver from the current position is avail; a frame that is completely available must be taken        *)
+(* whole and decided by its content; a stream that ends or fails inside the frame must give an error wrapping the cause. *)
+ReadWrapped(e) ==
+  LET avail == SubSeq(wire, e.pos0 + 1, limit)
+      hd == Header(avail)
+      whole == hd.hdr /\ hd.total <= Len(avail)
+      g == IF whole THEN SubSeq(avail, 1, hd.total) ELSE avail
+      v == IF whole THEN Verdict(g) ELSE [kind |-> "none"]
+      rt == IF Has(e, "obs") THEN RealType(e.obs) ELSE -1
+  IN
+  /\ Count("Read") /\ Count("read-wrapped") /\ Count("verdict-" \o v.kind) /\ (~whole => Count("read-faulty"))
+  /\ NoteIf(e.ok = e.nilpkt, "C04", "ReadPacket returned neither exactly a packet nor exactly an error", [ok |-> e.ok, nilpkt |-> e.nilpkt])
+  /\ IF whole
+     THEN /\ NoteIf(e.pos1 - e.pos0 # hd.total, "C06", "ReadPacket did not take exactly one frame out of the reader",
+                     [took |-> e.pos1 - e.pos0, frame |-> hd.total])
+          /\ NoteIf(v.kind = "accept" /\ ~e.ok, "C03", "valid frame rejected", [frame |-> g])
+          /\ NoteIf(v.kind = "accept" /\ e.ok /\ (rt # v.pkt.t \/ ObsDiff(ObsOfWire(v.pkt), e.obs) # {}), "C03",
+                    "accessors differ from the values the frame carries", [frame |-> g])
+          /\ NoteIf(v.kind = "reject" /\ e.ok, "C09", "frame that must be rejected was accepted", [cls |-> v.cls, frame |-> g])
+          /\ (IF g \in DOMAIN memo
+              THEN NoteIf(memo[g].ok # e.ok, "C07", "the same frame gave another outcome through a buffered reader", [frame |-> g])
+              ELSE TRUE)
+     ELSE /\ NoteIf(e.ok, "C08", "packet returned although the stream ended or failed inside its frame", [avail |-> Len(avail)])
+          /\ NoteIf(~e.ok /\ fate = "E" /\ ~hd.bad /\ ~e.isE, "C08", "error does not wrap the transport failure", [avail |-> Len(avail)])
+          /\ NoteIf(~e.ok /\ Len(avail) = 0 /\ fate = "eof" /\ ~e.isEOF, "C08", "end of stream on a frame boundary not reported as io.EOF", [pos |-> e.pos0])
+  /\ pool' = IF e.ok /\ Has(e, "obs") /\ rt >= 0 THEN (e.h :> [t |-> rt, o |-> Adopt(rt, e.obs)]) @@ pool ELSE pool
+  /\ enc' = IF e.ok /\ Has(e, "reenc") /\ ~e.reencFailed /\ rt >= 0
+            THEN (e.h :> [o |-> Adopt(rt, e.obs), bytes |-> e.reenc, clean |-> TRUE]) @@ enc ELSE enc
+  /\ Bystanders(e, e.h)
+  /\ pos' = IF e.pos1 >= 0 /\ e.pos1 <= limit THEN e.pos1 ELSE pos
+  /\ rp' = [rp EXCEPT !.st = "done", !.start = e.pos0, !.got = e.pos1 - e.pos0]
+  /\ UNCHANGED <<wire, limit, fate, with, prog, from, contig, memo, diag>>
+  /\ k' = 0 /\ ph' = "req" /\ l' = l + 1
+
 ReadEvent(e) ==
+  IF Has(e, "wrapped") /\ e.wrapped THEN ReadWrapped(e) ELSE
   IF k = 0 THEN ReadCall(e)
   ELSE IF k <= Len(e.calls) THEN (IF ph = "req" THEN ReadReq(e) ELSE ReadRet(e))
   ELSE ReadReturn(e)
